@@ -46,6 +46,30 @@ def cmp_atom(c):
     return None
 
 
+def facts(st):
+    """Path conditions as order facts in one normal form: ('lt', x, y) means x < y, ('le', x, y)
+    means x <= y - so that `x < y`, `!(y <= x)`, and for the weak form `x <= y`, `!(y < x)` are the
+    same fact however the source spelled the test."""
+    out = []
+    for (c, v) in st.conds:
+        a = cmp_atom(c)
+        if a is None:
+            continue
+        if a[1] == 'ult':
+            out.append(('lt', a[2], a[3]) if v else ('le', a[3], a[2]))
+        elif a[1] == 'ule':
+            out.append(('le', a[2], a[3]) if v else ('lt', a[3], a[2]))
+    return out
+
+
+def known_lt(fs, x, y):
+    return any(f[0] == 'lt' and f[1] == x and f[2] == y for f in fs)
+
+
+def known_le(fs, x, y):
+    return x == y or any(f[1] == x and f[2] == y for f in fs)
+
+
 def bounded(t, st, eng, depth=0):
     """-> reason string or None"""
     c = const_of(t)
@@ -55,32 +79,29 @@ def bounded(t, st, eng, depth=0):
         return 'max_size itself (saturated)'
     if field_init(t, eng, (1, 2)):
         return 'size/capacity of an existing container'
+    fs = facts(st)
+    for (kind, x, y) in fs:
+        # t <= MAX  (spelled `!(max < t)` or `t <= max`)
+        if kind == 'le' and x == t and is_max_term(y):
+            return 'guard n <= max_size'
+        if kind == 'lt' and x == t and is_max_term(y):
+            return 'guard n < max_size'
+        # k <= MAX - s  with t == s + k   (spelled `!(max - size < n)`)
+        if kind == 'le' and y[2] and lin_add(x, y) != x:
+            s_part = None
+            for at, co in y[2]:
+                if co == 1 and at[0] == 'max_size':
+                    s_part = lin_sub(atom(at), y)
+                    break
+            if s_part is None and y[1] and is_max_term(L(y[1])):
+                s_part = lin_sub(L(y[1]), y)
+            if s_part is not None and lin_add(s_part, x) == t:
+                return 'guard max_size - size < n is false'
     for (cond, v) in st.conds:
         a = cmp_atom(cond)
         if a is None:
             continue
         pred, x, y = a[1], a[2], a[3]
-        # not (MAX < t)   or   t <= MAX
-        if pred == 'ult' and v is False and is_max_term(x) and y == t:
-            return 'guard max_size < n is false'
-        if pred == 'ule' and v is True and is_max_term(y) and x == t:
-            return 'guard n <= max_size'
-        # not (MAX - s < k)  with t == s + k
-        if pred == 'ult' and v is False and lin_add(x, y) != x:
-            # x = MAX - s  ;  y = k
-            for at, co in x[2]:
-                pass
-            s_part = None
-            # find MAX in x: x = M - s  => s = M - x
-            for at, co in x[2]:
-                if co == 1 and at[0] == 'max_size':
-                    m = atom(at)
-                    s_part = lin_sub(m, x)
-                    break
-            if s_part is None and x[1] and is_max_term(L(x[1])) and x[2]:
-                s_part = lin_sub(L(x[1]), x)
-            if s_part is not None and lin_add(s_part, y) == t:
-                return 'guard max_size - size < n is false'
         # MAX == s is false, t == s + 1
         if pred == 'eq' and v is False:
             d = x   # canonical: d == 0
@@ -99,17 +120,14 @@ def bounded(t, st, eng, depth=0):
     # doubling: t == 2*c with no-overflow guard  not (MAX - c <= c)
     half = sym.lin_div_exact(t, 2)
     if half is not None and depth < 2:
-        for (cond, v) in st.conds:
-            a = cmp_atom(cond)
-            if a is None:
-                continue
-            pred, x, y = a[1], a[2], a[3]
-            if pred == 'ule' and v is False and y == half:
-                for at, co in x[2]:
-                    if co == 1 and at[0] == 'max_size' and lin_sub(atom(at), x) == half:
-                        return 'doubling guarded by max_size - capacity <= capacity being false'
-                if x[1] > 0 and is_max_term(L(x[1])) and lin_sub(L(x[1]), x) == half:
-                    return 'doubling guarded by max_size - capacity <= capacity being false'
+        # doubling without overflow: capacity < max - capacity  (spelled `!(max - cap <= cap)`)
+        for (kind, x, y) in facts(st):
+            if kind == 'lt' and x == half:
+                for at, co in y[2]:
+                    if co == 1 and at[0] == 'max_size' and lin_sub(atom(at), y) == half:
+                        return 'doubling guarded by capacity < max_size - capacity'
+                if y[1] > 0 and is_max_term(L(y[1])) and lin_sub(L(y[1]), y) == half:
+                    return 'doubling guarded by capacity < max_size - capacity'
     return None
 
 
